@@ -382,4 +382,234 @@ theorem svcb_spec (msg bb : Bytes) (prio : Nat) (target : Bytes) (ps : List (Nat
     simp only []
     rw [hp2]
 
+/-- the types `unpackResourceBody` has a case for -/
+def knownTypes : List Nat := [1, 2, 5, 6, 12, 15, 16, 28, 33, 41, 64, 65]
+
+/-- Well-formed resource body: canonical names, integer fields within their Go types,
+fixed-size addresses, unknown bodies only under types without a dedicated decoder.
+(String, value and key-order limits are checked by the packer itself.) -/
+def WFBody : Body → Prop
+  | .a ip => ip.length = 4
+  | .aaaa ip => ip.length = 16
+  | .ns n => Canonical n
+  | .cname n => Canonical n
+  | .ptr n => Canonical n
+  | .mx pref n => pref < 65536 ∧ Canonical n
+  | .txt _ => True
+  | .soa ns mbox a b c d e => Canonical ns ∧ Canonical mbox ∧ a < 4294967296 ∧ b < 4294967296 ∧
+      c < 4294967296 ∧ d < 4294967296 ∧ e < 4294967296
+  | .srv p w port t => p < 65536 ∧ w < 65536 ∧ port < 65536 ∧ Canonical t
+  | .opt opts => WFPairs16 opts
+  | .svcb p t ps => p < 65536 ∧ Canonical t ∧ WFPairs16 ps
+  | .https p t ps => p < 65536 ∧ Canonical t ∧ WFPairs16 ps
+  | .unknown t _ => t < 65536 ∧ t ∉ knownTypes
+
+theorem packBody_name_spec (msg bb n : Bytes) (comp comp' : Option CompMap) (mk : Bytes → Body) (typ : Nat)
+    (hinv : CompInvOpt msg comp) (hc : Canonical n)
+    (hp : packName n msg.length comp = .ok (bb, comp'))
+    (hun : ∀ F off len, unpackBody F off typ len = (nameOnly F off).map mk) :
+    comp'.isNone = comp.isNone ∧ CompInvOpt (msg ++ bb) comp' ∧
+    ∀ post, Agrees comp.isNone (unpackBody (msg ++ bb ++ post) msg.length typ bb.length) (mk n) := by
+  rcases packName_spec msg n bb comp comp' hinv hc hp with ⟨h1, h2, h3⟩
+  refine ⟨h1, h2, fun post => ?_⟩
+  rw [hun]
+  exact (nameOnly_of_agrees (h3 post)).map mk
+
+/-- **Every resource body**: `ResourceBody.pack` at the end of `msg`, then `unpackResourceBody`
+with the packed length, gives the body back. -/
+theorem packBody_spec (msg bb : Bytes) (b : Body) (comp comp' : Option CompMap)
+    (hinv : CompInvOpt msg comp) (hwf : WFBody b)
+    (hp : packBody b msg.length comp = .ok (bb, comp')) :
+    comp'.isNone = comp.isNone ∧ CompInvOpt (msg ++ bb) comp' ∧
+    ∀ post, Agrees comp.isNone (unpackBody (msg ++ bb ++ post) msg.length b.realType bb.length) b := by
+  cases b with
+  | a ip =>
+    simp only [packBody, Except.ok.injEq, Prod.mk.injEq] at hp
+    rcases hp with ⟨rfl, rfl⟩
+    refine ⟨rfl, hinv.append _, fun post => Or.inl ?_⟩
+    have := bytesAt_append msg ip post
+    simp only [WFBody] at hwf
+    rw [hwf] at this
+    simp only [unpackBody, Body.realType, typeA, Nat.reduceEqDiff, reduceIte, hwf]
+    rw [this]; rfl
+  | aaaa ip =>
+    simp only [packBody, Except.ok.injEq, Prod.mk.injEq] at hp
+    rcases hp with ⟨rfl, rfl⟩
+    refine ⟨rfl, hinv.append _, fun post => Or.inl ?_⟩
+    have := bytesAt_append msg ip post
+    simp only [WFBody] at hwf
+    rw [hwf] at this
+    simp only [unpackBody, Body.realType, typeAAAA, Nat.reduceEqDiff, reduceIte, hwf]
+    rw [this]; rfl
+  | ns n =>
+    exact packBody_name_spec msg bb n comp comp' Body.ns 2 hinv hwf (by simpa [packBody] using hp)
+      (by intro F off len; simp [unpackBody])
+  | cname n =>
+    exact packBody_name_spec msg bb n comp comp' Body.cname 5 hinv hwf (by simpa [packBody] using hp)
+      (by intro F off len; simp [unpackBody])
+  | ptr n =>
+    exact packBody_name_spec msg bb n comp comp' Body.ptr 12 hinv hwf (by simpa [packBody] using hp)
+      (by intro F off len; simp [unpackBody])
+  | mx pref n =>
+    simp only [packBody] at hp
+    have hpos : msg.length + 2 = (msg ++ u16 pref).length := by simp [u16]
+    rw [hpos] at hp
+    cases hn : packName n (msg ++ u16 pref).length comp with
+    | error e => rw [hn] at hp; simp at hp
+    | ok res =>
+      rcases res with ⟨nb, c1⟩
+      rw [hn] at hp
+      simp only [Except.ok.injEq, Prod.mk.injEq] at hp
+      rcases hp with ⟨rfl, rfl⟩
+      rcases packName_spec (msg ++ u16 pref) n nb comp c1 (hinv.append _) hwf.2 hn with ⟨h1, h2, h3⟩
+      refine ⟨h1, by simpa [List.append_assoc] using h2, fun post => ?_⟩
+      have hF : msg ++ (u16 pref ++ nb) ++ post = msg ++ u16 pref ++ nb ++ post := by simp
+      have hu : u16At (msg ++ (u16 pref ++ nb) ++ post) msg.length = .ok (pref, msg.length + 2) :=
+        u16At_drop (rest := nb ++ post) (by simp) hwf.1
+      have hr := nameOnly_of_agrees (h3 post)
+      rw [← hF, ← hpos] at hr
+      simp only [unpackBody, Body.realType, typeMX]
+      simp only [show ¬ ((15 : Nat) = 1) by decide, show ¬ ((15 : Nat) = 2) by decide,
+        show ¬ ((15 : Nat) = 5) by decide, show ¬ ((15 : Nat) = 6) by decide,
+        show ¬ ((15 : Nat) = 12) by decide, if_false, if_true, hu]
+      exact hr.map (Body.mx pref)
+  | txt ss =>
+    simp only [packBody] at hp
+    cases ht : packTexts ss with
+    | error e => rw [ht] at hp; simp at hp
+    | ok bs =>
+      rw [ht] at hp
+      simp only [Except.ok.injEq, Prod.mk.injEq] at hp
+      rcases hp with ⟨rfl, rfl⟩
+      refine ⟨rfl, hinv.append _, fun post => Or.inl ?_⟩
+      have := txtLoop_spec ss bs ht msg post 0 bs.length (bs.length + 1) (by simp)
+        (by have := packTexts_length ss bs ht; omega)
+      simp only [unpackBody, Body.realType, typeTXT, Nat.reduceEqDiff, reduceIte]
+      rw [this]; rfl
+  | soa ns mbox a b c d e =>
+    rcases hwf with ⟨hc1, hc2, ha, hb, hcc, hd, he⟩
+    simp only [packBody] at hp
+    cases hn1 : packName ns msg.length comp with
+    | error e => rw [hn1] at hp; simp at hp
+    | ok res1 =>
+      rcases res1 with ⟨b1, c1⟩
+      rw [hn1] at hp
+      simp only [] at hp
+      have hpos : msg.length + b1.length = (msg ++ b1).length := by simp
+      rw [hpos] at hp
+      cases hn2 : packName mbox (msg ++ b1).length c1 with
+      | error e => rw [hn2] at hp; simp at hp
+      | ok res2 =>
+        rcases res2 with ⟨b2, c2⟩
+        rw [hn2] at hp
+        simp only [Except.ok.injEq, Prod.mk.injEq] at hp
+        rcases hp with ⟨rfl, rfl⟩
+        rcases packName_spec msg ns b1 comp c1 hinv hc1 hn1 with ⟨g1, g2, g3⟩
+        rcases packName_spec (msg ++ b1) mbox b2 c1 c2 g2 hc2 hn2 with ⟨k1, k2, k3⟩
+        refine ⟨by rw [k1, g1], ?_, fun post => ?_⟩
+        · have := k2.append (u32 a ++ u32 b ++ u32 c ++ u32 d ++ u32 e)
+          simpa [List.append_assoc] using this
+        · rw [g1] at k3
+          have hF : msg ++ (b1 ++ b2 ++ u32 a ++ u32 b ++ u32 c ++ u32 d ++ u32 e) ++ post =
+              msg ++ b1 ++ (b2 ++ u32 a ++ u32 b ++ u32 c ++ u32 d ++ u32 e ++ post) := by simp
+          have hF2 : msg ++ (b1 ++ b2 ++ u32 a ++ u32 b ++ u32 c ++ u32 d ++ u32 e) ++ post =
+              msg ++ b1 ++ b2 ++ (u32 a ++ u32 b ++ u32 c ++ u32 d ++ u32 e ++ post) := by simp
+          have r1 := g3 (b2 ++ u32 a ++ u32 b ++ u32 c ++ u32 d ++ u32 e ++ post)
+          have r2 := k3 (u32 a ++ u32 b ++ u32 c ++ u32 d ++ u32 e ++ post)
+          rw [← hF] at r1
+          rw [← hF2, ← hpos] at r2
+          simp only [unpackBody, Body.realType, typeSOA]
+          simp only [show ¬ ((6 : Nat) = 1) by decide, show ¬ ((6 : Nat) = 2) by decide,
+            show ¬ ((6 : Nat) = 5) by decide, if_false, if_true]
+          rcases r1 with r1 | ⟨hs, r1⟩
+          · rcases r2 with r2 | ⟨hs, r2⟩
+            · left
+              have u1 : u32At (msg ++ (b1 ++ b2 ++ u32 a ++ u32 b ++ u32 c ++ u32 d ++ u32 e) ++ post)
+                  (msg.length + b1.length + b2.length) = .ok (a, msg.length + b1.length + b2.length + 4) :=
+                u32At_drop (rest := u32 b ++ u32 c ++ u32 d ++ u32 e ++ post) (by simp [Nat.add_assoc]) ha
+              have u2 : u32At (msg ++ (b1 ++ b2 ++ u32 a ++ u32 b ++ u32 c ++ u32 d ++ u32 e) ++ post)
+                  (msg.length + b1.length + b2.length + 4) = .ok (b, msg.length + b1.length + b2.length + 4 + 4) :=
+                u32At_drop (rest := u32 c ++ u32 d ++ u32 e ++ post) (by simp [Nat.add_assoc, u32]) hb
+              have u3 : u32At (msg ++ (b1 ++ b2 ++ u32 a ++ u32 b ++ u32 c ++ u32 d ++ u32 e) ++ post)
+                  (msg.length + b1.length + b2.length + 4 + 4) = .ok (c, msg.length + b1.length + b2.length + 4 + 4 + 4) :=
+                u32At_drop (rest := u32 d ++ u32 e ++ post) (by simp [Nat.add_assoc, u32]) hcc
+              have u4 : u32At (msg ++ (b1 ++ b2 ++ u32 a ++ u32 b ++ u32 c ++ u32 d ++ u32 e) ++ post)
+                  (msg.length + b1.length + b2.length + 4 + 4 + 4) = .ok (d, msg.length + b1.length + b2.length + 4 + 4 + 4 + 4) :=
+                u32At_drop (rest := u32 e ++ post) (by simp [Nat.add_assoc, u32]) hd
+              have u5 : u32At (msg ++ (b1 ++ b2 ++ u32 a ++ u32 b ++ u32 c ++ u32 d ++ u32 e) ++ post)
+                  (msg.length + b1.length + b2.length + 4 + 4 + 4 + 4) = .ok (e, msg.length + b1.length + b2.length + 4 + 4 + 4 + 4 + 4) :=
+                u32At_drop (rest := post) (by simp [Nat.add_assoc, u32]) he
+              simp only [r1, r2, u1, u2, u3, u4, u5]
+            · right; exact ⟨hs, by simp only [r1, r2]⟩
+          · right; exact ⟨hs, by simp only [r1]⟩
+  | srv p w port t =>
+    rcases hwf with ⟨hp1, hw1, hport, hc⟩
+    simp only [packBody] at hp
+    rcases name_roundtrip_nocomp t (msg.length + 6) hc with ⟨tb, htp, htu⟩
+    rw [htp] at hp
+    simp only [Except.ok.injEq, Prod.mk.injEq] at hp
+    rcases hp with ⟨rfl, rfl⟩
+    refine ⟨rfl, hinv.append _, fun post => Or.inl ?_⟩
+    have u1 : u16At (msg ++ (u16 p ++ u16 w ++ u16 port ++ tb) ++ post) msg.length = .ok (p, msg.length + 2) :=
+      u16At_drop (rest := u16 w ++ u16 port ++ tb ++ post) (by simp) hp1
+    have u2 : u16At (msg ++ (u16 p ++ u16 w ++ u16 port ++ tb) ++ post) (msg.length + 2) = .ok (w, msg.length + 2 + 2) :=
+      u16At_drop (rest := u16 port ++ tb ++ post) (by simp [u16]) hw1
+    have u3 : u16At (msg ++ (u16 p ++ u16 w ++ u16 port ++ tb) ++ post) (msg.length + 2 + 2) = .ok (port, msg.length + 2 + 2 + 2) :=
+      u16At_drop (rest := tb ++ post) (by simp [u16, Nat.add_assoc]) hport
+    have hn : unpackName (msg ++ (u16 p ++ u16 w ++ u16 port ++ tb) ++ post) (msg.length + 2 + 2 + 2) =
+        .ok (t, msg.length + 2 + 2 + 2 + tb.length) := by
+      have := htu (msg ++ u16 p ++ u16 w ++ u16 port) post
+      simpa [u16, List.append_assoc, Nat.add_assoc] using this
+    simp only [unpackBody, Body.realType, typeSRV]
+    simp only [show ¬ ((33 : Nat) = 1) by decide, show ¬ ((33 : Nat) = 2) by decide,
+      show ¬ ((33 : Nat) = 5) by decide, show ¬ ((33 : Nat) = 6) by decide, show ¬ ((33 : Nat) = 12) by decide,
+      show ¬ ((33 : Nat) = 15) by decide, show ¬ ((33 : Nat) = 16) by decide, show ¬ ((33 : Nat) = 28) by decide,
+      if_false, if_true, u1, u2, u3, nameOnly, hn]
+    rfl
+  | opt opts =>
+    simp only [packBody, Except.ok.injEq, Prod.mk.injEq] at hp
+    rcases hp with ⟨rfl, rfl⟩
+    refine ⟨rfl, hinv.append _, fun post => Or.inl ?_⟩
+    have := optLoop_spec opts hwf msg post ((msg ++ packOpts opts ++ post).length + 1)
+      (by have := packOpts_length opts; simp; omega)
+    simp only [unpackBody, Body.realType, typeOPT, Nat.reduceEqDiff, reduceIte]
+    rw [this]; rfl
+  | svcb p t ps =>
+    rcases hwf with ⟨hp1, hc, hps⟩
+    simp only [packBody] at hp
+    cases hs : packSVCB p t ps with
+    | error e => rw [hs] at hp; simp at hp
+    | ok bs =>
+      rw [hs] at hp
+      simp only [Except.ok.injEq, Prod.mk.injEq] at hp
+      rcases hp with ⟨rfl, rfl⟩
+      refine ⟨rfl, hinv.append _, fun post => Or.inl ?_⟩
+      have := svcb_spec msg bs p t ps hp1 hc hps hs post
+      simp only [unpackBody, Body.realType, typeSVCB, Nat.reduceEqDiff, reduceIte]
+      rw [this]; rfl
+  | https p t ps =>
+    rcases hwf with ⟨hp1, hc, hps⟩
+    simp only [packBody] at hp
+    cases hs : packSVCB p t ps with
+    | error e => rw [hs] at hp; simp at hp
+    | ok bs =>
+      rw [hs] at hp
+      simp only [Except.ok.injEq, Prod.mk.injEq] at hp
+      rcases hp with ⟨rfl, rfl⟩
+      refine ⟨rfl, hinv.append _, fun post => Or.inl ?_⟩
+      have := svcb_spec msg bs p t ps hp1 hc hps hs post
+      simp only [unpackBody, Body.realType, typeHTTPS, Nat.reduceEqDiff, reduceIte]
+      rw [this]; rfl
+  | unknown t data =>
+    simp only [packBody, Except.ok.injEq, Prod.mk.injEq] at hp
+    rcases hp with ⟨rfl, rfl⟩
+    refine ⟨rfl, hinv.append _, fun post => Or.inl ?_⟩
+    have := bytesAt_append msg data post
+    simp only [WFBody, knownTypes] at hwf
+    have hk := hwf.2
+    simp only [List.mem_cons, List.not_mem_nil, or_false, not_or] at hk
+    rcases hk with ⟨k1, k2, k3, k4, k5, k6, k7, k8, k9, k10, k11, k12⟩
+    simp only [unpackBody, Body.realType, k1, k2, k3, k4, k5, k6, k7, k8, k9, k10, k11, k12, if_false, this]
+    rfl
+
 end NetVerif.Proofs.DnsMsg
